@@ -68,12 +68,16 @@ def run(ctx):
         if n.stmt is None or n.part != 'eval' or id(n.stmt) not in in_loop:
             continue
         for e in n.succ:
-            if e.kind != 'exc' or e.exc != 'ConnectionClosedError' or e.call is None:
+            if e.kind != 'exc' or e.exc not in ('ConnectionClosedError', 'OSError') or e.call is None:
                 continue
             if cli not in names_in(e.call):
                 continue
+            # a plain OSError: only the socket calls whose failure depends on what the peer did (a reset connection makes shutdown() and getpeername()
+            # fail with ENOTCONN, the data calls with EPIPE / ECONNRESET); setting socket options on an accepted socket does not fail because of the peer
+            if e.exc == 'OSError' and not (receiver(e.call) == cli and last_attr(e.call) in ('shutdown', 'getpeername', 'send', 'sendall', 'sendmsg', 'sendfile', 'recv', 'recv_into')):
+                continue
             n_sites += 1
-            inst = f'RemoteServer.run: ConnectionClosedError of `{short(e.call, 60)}` is contained in the loop'
+            inst = f'RemoteServer.run: {e.exc} of `{short(e.call, 60)}` is contained in the loop'
             dst = e.dst
             contained = dst.kind == 'handler' and id(dst.stmt) in in_loop
             p = None
@@ -83,10 +87,10 @@ def run(ctx):
                 contained = p is None
             what = last_attr(e.call)
             role = role_of_call(e.call)
-            ctx.check('R1', inst, contained, 'RemoteServer.run', f'uncontained:{role}',
-                      f'a client that disconnects while the server executes `{short(e.call, 70)}` raises ConnectionClosedError out of the accept loop: '
+            ctx.check('R1', inst, contained, 'RemoteServer.run', f'uncontained:{role}' + ('' if e.exc == 'ConnectionClosedError' else ':' + e.exc),
+                      f'a client that disconnects (or resets the connection) while the server executes `{short(e.call, 70)}` raises {e.exc} out of the accept loop: '
                       'the server stops and takes the workers of every other client with it', where=loc(f, e.call),
-                      path=[f'{n.describe()}', f'--exc:ConnectionClosedError--> {dst.describe()}'] + path_str(p or []))
+                      path=[f'{n.describe()}', f'--exc:{e.exc}--> {dst.describe()}'] + path_str(p or []))
     ctx.floor('client-tainted raise sites in the accept loop', n_sites, 4)
 
     # ---------------------------------------------------------------- R3 abandon paths close the client
